@@ -509,9 +509,15 @@ def var_signature(fn: ast.AST, name: str) -> str:
         elif isinstance(n, ast.AugAssign) and isinstance(n.target, ast.Name) and n.target.id == name:
             sigs.add("aug" + type(n.op).__name__)
         elif isinstance(n, ast.For):
-            for el in ast.walk(n.target):
+            it, tg = n.iter, n.target
+            if isinstance(it, ast.Call) and isinstance(it.func, ast.Name) and it.func.id == "enumerate" and it.args and isinstance(tg, ast.Tuple) and len(tg.elts) == 2:
+                # the element of `for i, x in enumerate(X)` is bound exactly as the x of `for x in X`
+                if any(isinstance(el, ast.Name) and el.id == name for el in ast.walk(tg.elts[0])):
+                    sigs.add("for:index:" + mask(it.args[0])[:50])
+                it, tg = it.args[0], tg.elts[1]
+            for el in ast.walk(tg):
                 if isinstance(el, ast.Name) and el.id == name:
-                    sigs.add("for:" + mask(n.iter)[:50])
+                    sigs.add("for:" + mask(it)[:50])
         elif isinstance(n, ast.comprehension):
             for el in ast.walk(n.target):
                 if isinstance(el, ast.Name) and el.id == name:
